@@ -535,18 +535,19 @@ Section Fib.
   Proof.
     intros (Hg & Hn & Hm). unfold finv, fbag, f_insert. simpl.
     destruct (f_ring K V h) as [|e rest] eqn:Er.
-    - simpl. repeat split; auto.
-      + repeat constructor. apply fgood_leaf.
-      + simpl in Hn. lia.
-      + intros t [<-|[]]. simpl. rewrite (cmp_refl cmp TO). lia.
+    - split; [split; [|split]|].
+      + constructor; [apply fgood_leaf | constructor].
+      + simpl in *. lia.
+      + simpl. intros t [<-|[]]. simpl. rewrite (cmp_refl cmp TO). lia.
+      + reflexivity.
     - destruct (Z.leb_spec (cmp (ft_key K V e) k) 0) as [Hle|Hgt].
-      + rewrite fentries_app. split; [|split; [|split]].
-        * apply Forall_app. split; [exact Hg | repeat constructor; apply fgood_leaf].
+      + rewrite fentries_app. split; [split; [|split]|].
+        * apply Forall_app. split; [exact Hg | constructor; [apply fgood_leaf | constructor]].
         * rewrite app_length, Hn. simpl. lia.
         * simpl. simpl in Hm. intros t Ht. change (In t ((e :: rest) ++ [FNode k v 0 []])) in Ht.
           apply in_app_or in Ht as [Ht|[<-|[]]]; [now apply Hm | exact Hle].
         * simpl. rewrite Permutation_app_comm. reflexivity.
-      + split; [|split; [|split]].
+      + split; [split; [|split]|].
         * constructor; [apply fgood_leaf | exact Hg].
         * simpl. simpl in Hn. lia.
         * simpl. simpl in Hm. intros t [<-|Ht].
@@ -569,7 +570,7 @@ Section Fib.
         assert (Hperm : Permutation ((x :: r1) ++ t2 ++ [y]) ((x :: r1) ++ y :: t2)).
         { apply Permutation_app_head. rewrite Permutation_app_comm. reflexivity. }
         destruct (Z.leb_spec (cmp (ft_key K V x) (ft_key K V y)) 0) as [Hle|Hgt].
-        * split; [|split; [|split]].
+        * split; [split; [|split]|].
           -- eapply Permutation_Forall; [symmetry; exact Hperm|]. apply Forall_app; split; auto.
           -- rewrite (Permutation_length (fentries_perm _ _ Hperm)), fentries_app, app_length. lia.
           -- simpl. intros t Ht. change (In t ((x :: r1) ++ t2 ++ [y])) in Ht.
@@ -580,7 +581,7 @@ Section Fib.
         * assert (Hyx : (cmp (ft_key K V y) (ft_key K V x) <= 0)%Z).
           { pose proof (cmp_gt_lt cmp TO (ft_key K V x) (ft_key K V y) ltac:(lia)). lia. }
           assert (Hperm2 : Permutation (y :: (x :: r1) ++ t2) ((x :: r1) ++ y :: t2)) by apply Permutation_middle.
-          split; [|split; [|split]].
+          split; [split; [|split]|].
           -- eapply Permutation_Forall; [symmetry; exact Hperm2|]. apply Forall_app; split; auto.
           -- rewrite (Permutation_length (fentries_perm _ _ Hperm2)), fentries_app, app_length. lia.
           -- simpl. intros t Ht. change (In t (y :: (x :: r1) ++ t2)) in Ht.
